@@ -561,6 +561,57 @@ Section Sim.
         + pose proof (emit_results_no_err fuel s3) as NE. rewrite E4 in NE. contradiction.
       - cbn [rres]. split; [reflexivity|]. apply Xfin. reflexivity.
     Qed.
+
+    (* the same without the hypothesis that the block has run all its code *)
+    Lemma close_meta_rel_gen t md dl n' : okc t md dl n' -> cmode (cx t) = MMeta ->
+      rres (context_close fo rf t) (context_close fo rf (wc t md dl n')).
+    Proof.
+      intros Ho Hm. destruct (okc_meta _ _ _ _ Ho Hm) as (-> & -> & ups & F & E1 & ->).
+      rewrite (wc_meta t _ Hm). unfold context_close.
+      cbn [set_nested nested]. rewrite E1.
+      assert (X : exists prev rest prev' rest',
+                 ups ++ tE :: base0 = prev :: rest /\ ups ++ tC :: base0 = prev' :: rest' /\
+                 fs_len prev' = fs_len prev /\
+                 mode_eqb (cmode prev') MMeta = mode_eqb (cmode prev) MMeta /\
+                 (forall s4, nested s4 = rest -> rel_st (set_cx s4 prev) (set_cx (set_nested s4 rest') prev')) /\
+                 (forall s1, cmode (cx s1) = MMeta ->
+                    rel_st (set_nested s1 (prev :: rest)) (set_nested s1 (prev' :: rest')))).
+      { assert (XE : forall s1, cmode (cx s1) = MMeta ->
+                  rel_st (set_nested s1 (ups ++ tE :: base0)) (set_nested s1 (ups ++ tC :: base0))).
+        { intros s1 M1. exact (okc_meta_intro (set_nested s1 (ups ++ tE :: base0)) ups M1 F eq_refl). }
+        destruct ups as [|u ups']; cbn [app] in *.
+        - exists tE, base0, tC, base0. repeat split; [cbn; rewrite HtE; reflexivity| |exact XE].
+          intros s4 N4. exists MCompile, dlC, base0. split.
+          + left. cbn [set_cx cx nested]. repeat split. exact N4.
+          + reflexivity.
+        - exists u, (ups' ++ tE :: base0), u, (ups' ++ tC :: base0). repeat split; [|exact XE].
+          intros s4 N4. inversion F as [|? ? Hu F']; subst.
+          assert (Hmu : cmode (cx (set_cx s4 u)) = MMeta) by exact Hu.
+          pose proof (okc_meta_intro (set_cx s4 u) ups' Hmu F' N4) as R. exact R. }
+      destruct X as (prev & rest & prev' & rest' & -> & -> & Xf & Xm & Xfin & Xerr).
+      cbv zeta. cbn [set_nested cx]. rewrite Hm.
+      change (set_nested (set_nested t (prev' :: rest')) rest') with (set_nested (set_nested t rest) rest').
+      rewrite (run_m_nested fo rf (set_nested t rest) rest').
+      pose proof (run_m_frame fo rf (set_nested t rest)) as FR.
+      destruct (run_m fo rf (set_nested t rest)) as [u s1|k p s1| |]; cbn [res_map res_all] in *; try exact I.
+      - assert (N1 : nested s1 = rest) by (destruct FR as (_ & _ & _ & A4 & _); exact A4).
+        cbn [set_nested set_code set_dbg set_dict cx code dbg dict flows ds].
+        rewrite Xf, Xm.
+        match goal with |- context [emit_results ?n ?x] => set (fuel := n); set (s3 := x) end.
+        match goal with |- context [emit_results fuel ?y] =>
+          lazymatch y with s3 => fail | _ => change y with (set_nested s3 rest') end end.
+        match goal with |- context [if ?c then _ else _] => destruct c end.
+        + rewrite emit_results_nested. pose proof (emit_results_keeps fuel s3) as K.
+          destruct (emit_results fuel s3) as [u4 s4|k p s4| |] eqn:E4; cbn [res_map rres res_all] in *; auto.
+          * split; [reflexivity|]. apply Xfin. rewrite (proj2 K). exact N1.
+          * pose proof (emit_results_no_err fuel s3) as NE. rewrite E4 in NE. contradiction.
+        + cbn [rres]. split; [reflexivity|]. apply Xfin. exact N1.
+      - assert (N1 : nested s1 = rest) by (destruct FR as (_ & _ & _ & A4 & _); exact A4).
+        assert (M1 : cmode (cx s1) = MMeta).
+        { destruct FR as (_ & _ & _ & _ & _ & _ & _ & _ & _ & _ & A11 & _). rewrite A11.
+          cbn [set_nested cx]. destruct (cx t); exact Hm. }
+        cbn [rres]. repeat split. rewrite N1. exact (Xerr s1 M1).
+    Qed.
   End Close.
 
   (* ---------- the words that leave a meta block, and const ---------- *)
@@ -668,17 +719,118 @@ Section Sim.
       apply Y. exact Ho2.
     Qed.
 
+    (* ---------- enum ---------- *)
+    Lemma rp_i_enum : rp (i_enum pr).
+    Proof.
+      pose proof (rp_context_open_meta) as HO. unfold i_enum, def_immediate, i_nested_begin.
+      repeat first [ apply HO | rp_step ].
+    Qed.
+
+    Lemma rp_enum_add_field nm val : rp (enum_add_field nm val).
+    Proof.
+      intros t md dl n' Ho. unfold enum_add_field. rewrite !bind_get.
+      change (flows (wc t md dl n')) with (flows t).
+      destruct (flows t) as [|f r]; [apply rp_fail; exact Ho|].
+      destruct f; try (apply rp_fail; exact Ho).
+      destruct (val fields) as [v|]; [|apply rp_fail; exact Ho].
+      cbv zeta. unfold bind at 1 3. unfold put.
+      match goal with |- rres (?P ?a) (?P ?b2) => change b2 with (wc a md dl n') end.
+      assert (X : rp (let* _ := dict_insert nm (DConst (CInt v)) in i_nested_begin)).
+      { apply rp_bind; [apply rp_dict_insert|intros _]. apply rp_context_open_meta. }
+      apply X. eapply okc_keep; [..|exact Ho]; reflexivity.
+    Qed.
+
+    Lemma i_enum_field_rel t md dl n' : okc t md dl n' -> quiet t ->
+      rres (i_enum_field fo pr rf t) (i_enum_field fo pr rf (wc t md dl n')).
+    Proof.
+      intros Ho Q. unfold i_enum_field. rewrite !(bind_eq _ _ (i_nested_end fo rf)).
+      pose proof (i_nested_end_rel t md dl n' Ho Q) as X.
+      destruct (i_nested_end fo rf t) as [u t1|k p t1| |];
+        destruct (i_nested_end fo rf (wc t md dl n')) as [u' t1'|k' p' t1'| |];
+        cbn [rres] in *; try contradiction; auto.
+      destruct X as [_ (md1 & dl1 & n1 & Ho1 & ->)].
+      assert (Y : rp (let* sn := next_name pr in enum_add_field sn enum_next_value)).
+      { apply rp_bind; [apply rp_next_name|intros sn]. apply rp_enum_add_field. }
+      apply Y. exact Ho1.
+    Qed.
+
+    Lemma i_enum_field_set_rel t md dl n' : okc t md dl n' -> quiet t -> enum_field_bad fo rf t = false ->
+      rres (i_enum_field_set fo pr rf t) (i_enum_field_set fo pr rf (wc t md dl n')).
+    Proof.
+      intros Ho Q EB. unfold i_enum_field_set. rewrite !(bind_eq _ _ (i_nested_end fo rf)).
+      unfold enum_field_bad in EB.
+      pose proof (i_nested_end_rel t md dl n' Ho Q) as X.
+      destruct (i_nested_end fo rf t) as [u t1|k p t1| |];
+        destruct (i_nested_end fo rf (wc t md dl n')) as [u' t1'|k' p' t1'| |];
+        cbn [rres] in *; try contradiction; auto.
+      destruct X as [_ (md1 & dl1 & n1 & Ho1 & ->)].
+      apply negb_false_iff, andb_true_iff in EB. destruct EB as [_ E]. apply mode_eqb_meta in E.
+      rewrite !(bind_eq _ _ pop_data).
+      pose proof (rpm_wx _ _ wx_pop_data wl_pop_data t1 md1 dl1 n1 Ho1 E) as X.
+      destruct (pop_data t1) as [v t2|k p t2| |];
+        destruct (pop_data (wc t1 md1 dl1 n1)) as [v' t2'|k' p' t2'| |];
+        cbn [rres] in *; try contradiction; auto.
+      destruct X as [<- (md2 & dl2 & n2 & Ho2 & ->)].
+      assert (Y : rp (let* z := m_xint v in let* sn := next_name pr in enum_add_field sn (fun _ => Some z))).
+      { apply rp_bind; [unfold m_xint; destruct (value v); first [apply rp_ret|apply rp_fail]|intros z].
+        apply rp_bind; [apply rp_next_name|intros sn]. apply rp_enum_add_field. }
+      apply Y. exact Ho2.
+    Qed.
+
+    Lemma i_nested_end_rel_gen t md dl n' : okc t md dl n' ->
+      rres (i_nested_end fo rf t) (i_nested_end fo rf (wc t md dl n')).
+    Proof.
+      intros Ho. unfold i_nested_end, bind, get.
+      change (cmode (cx (wc t md dl n'))) with md. rewrite (okc_mode _ _ _ _ Ho).
+      change (has_pending_flow (wc t md dl n')) with (has_pending_flow t).
+      destruct (mode_eqb (cmode (cx t)) MMeta) eqn:E; cbn [negb];
+        [|cbn; repeat split; apply rel_st_intro; exact Ho].
+      apply mode_eqb_meta in E.
+      destruct (has_pending_flow t) eqn:P; [cbn; repeat split; apply rel_st_intro; exact Ho|].
+      apply close_meta_rel_gen; auto.
+    Qed.
+
+    Lemma i_endenum_rel t md dl n' : okc t md dl n' -> quiet t -> enum_close_bad fo rf t = false ->
+      rres (i_endenum fo rf t) (i_endenum fo rf (wc t md dl n')).
+    Proof.
+      intros Ho Q EB. unfold i_endenum. rewrite !(bind_eq _ _ (i_nested_end fo rf)).
+      unfold enum_close_bad in EB.
+      pose proof (i_nested_end_rel t md dl n' Ho Q) as X.
+      destruct (i_nested_end fo rf t) as [u t1|k p t1| |];
+        destruct (i_nested_end fo rf (wc t md dl n')) as [u' t1'|k' p' t1'| |];
+        cbn [rres] in *; try contradiction; auto.
+      destruct X as [_ (md1 & dl1 & n1 & Ho1 & ->)].
+      pose proof EB as E. apply negb_false_iff, mode_eqb_meta in E.
+      rewrite !bind_get.
+      destruct (okc_meta _ _ _ _ Ho1 E) as (Emd & Edl & _).
+      assert (ED : data_depth (wc t1 md1 dl1 n1) = data_depth t1).
+      { unfold data_depth. change (ds (wc t1 md1 dl1 n1)) with (ds t1).
+        change (ds_len (cx (wc t1 md1 dl1 n1))) with dl1. rewrite Edl. reflexivity. }
+      rewrite ED.
+      destruct (0 <? data_depth t1)%nat; [cbn; repeat split; apply rel_st_intro; exact Ho1|].
+      rewrite !(bind_eq _ _ pop_flow).
+      pose proof (rp_pop_flow t1 md1 dl1 n1 Ho1) as X.
+      destruct (pop_flow t1) as [fl t2|k p t2| |];
+        destruct (pop_flow (wc t1 md1 dl1 n1)) as [fl' t2'|k' p' t2'| |];
+        cbn [rres] in *; try contradiction; auto.
+      destruct X as [<- (md2 & dl2 & n2 & Ho2 & ->)].
+      destruct fl as [f|]; [|cbn; repeat split; apply rel_st_intro; exact Ho2].
+      destruct f; try (cbn; repeat split; apply rel_st_intro; exact Ho2).
+      apply i_nested_end_rel_gen. exact Ho2.
+    Qed.
+
     (* ---------- the table ---------- *)
-    Definition rp_word (w : M unit) : Prop :=
-      forall t md dl n', okc t md dl n' -> quiet t -> rres (w t) (w (wc t md dl n')).
+    Definition rp_word (name : string) (w : M unit) : Prop :=
+      forall t md dl n', okc t md dl n' -> quiet t -> native_bad fo pr rf 0 name t = false ->
+        rres (w t) (w (wc t md dl n')).
 
-    Lemma rp_word_of w : rp w -> rp_word w.
-    Proof. intros H t md dl n' Ho _. apply H. exact Ho. Qed.
+    Lemma rp_word_of name w : rp w -> rp_word name w.
+    Proof. intros H t md dl n' Ho _ _. apply H. exact Ho. Qed.
 
-    Lemma rp_immediate_fn : forall fuel name w, immediate_fn fo pr rf fuel name = Some w -> rp_word w.
+    Lemma rp_immediate_fn : forall fuel name w, immediate_fn fo pr rf fuel name = Some w -> rp_word name w.
     Proof.
       intros fuel name w H. unfold immediate_fn in H. cbv zeta in H.
-      eapply table_find_Forall with (P := rp_word); [|exact H].
+      eapply table_find_Forall2 with (P := rp_word); [|exact H].
       pose proof (rp_build_let_in pr fuel) as HL.
       pose proof rp_emit_native as HE.
       pose proof rp_i_set_fmt_base as HB.
@@ -693,9 +845,12 @@ Section Sim.
                               | apply rp_i_def_begin | apply rp_i_def_end | apply rp_i_late
                               | apply rp_i_immediate | apply rp_i_local | apply rp_i_var | apply rp_i_setvar
                               | apply rp_context_open_meta | apply rp_i_do | apply rp_i_loop
-                              | apply rp_i_foreach | apply rp_i_defined | apply i_const_rel ]
-                      | (intros t md dl n' Ho Q; apply i_nested_end_rel; assumption)
-                      | (intros t md dl n' Ho Q; apply i_nested_inject_rel; assumption) ]
+                              | apply rp_i_foreach | apply rp_i_defined | apply i_const_rel | apply rp_i_enum ]
+                      | (intros t md dl n' Ho Q _; apply i_nested_end_rel; assumption)
+                      | (intros t md dl n' Ho Q _; apply i_nested_inject_rel; assumption)
+                      | (intros t md dl n' Ho Q _; apply i_enum_field_rel; assumption)
+                      | (intros t md dl n' Ho Q C; apply i_enum_field_set_rel; [assumption | assumption | exact (proj2 (orb_false_elim _ _ C))])
+                      | (intros t md dl n' Ho Q C; apply i_endenum_rel; [assumption | assumption | exact (proj2 (orb_false_elim _ _ (proj1 (orb_false_elim _ _ C))))]) ]
               | ]).
       apply Forall_nil.
     Qed.
